@@ -74,6 +74,8 @@ type c18Scn struct {
 	// pathAlwaysSet: ConfigPath reports true even for an empty path
 	pathAlwaysSet bool
 	watchedErr    []string
+	// newCfgOldMarkers: the file marker of the OLD config of every OnNewConfig call
+	newCfgOldMarkers []string
 	// holdMarker: Verify parks (once) on the config whose marker this is
 	holdMarker  string
 	holdReached chan struct{}
@@ -415,7 +417,14 @@ func runC18(w *fw.Worker) {
 		defer os.Remove(path)
 		desc := map[string]any{"format": format, "by_extension": byExt, "flag_source": flagKind, "watch": watch, "path_from": pathFrom, "mode": mode, "argv": argv, "document": string(text), "env": os.Environ(), "need_marker": scn.needMarker, "file_keys_kebab": kebab}
 		params := ez.Params[c18Cfg]{WatchConfigFile: watch,
-			OnNewConfig: func(context.Context, *c18Cfg, *c18Cfg) { scn.mu.Lock(); scn.newCfg++; scn.mu.Unlock() },
+			OnNewConfig: func(_ context.Context, old, _ *c18Cfg) {
+				scn.mu.Lock()
+				scn.newCfg++
+				if old != nil {
+					scn.newCfgOldMarkers = append(scn.newCfgOldMarkers, old.Marker)
+				}
+				scn.mu.Unlock()
+			},
 			OnWatchedError: func(_ context.Context, err error, _, _ *c18Cfg) {
 				scn.mu.Lock()
 				scn.watchedErr = append(scn.watchedErr, err.Error())
@@ -458,6 +467,30 @@ func runC18(w *fw.Worker) {
 		}
 		ctx, cancel := context.WithCancel(context.Background())
 		defer cancel()
+		// in some watching cases the callback goroutine is held at its first dequeue (the version that brought the
+		// file in, announced while the global callbacks are still suppressed) until the first watched change has
+		// been installed: that version must stay hidden from OnNewConfig whenever it is processed
+		var releaseCB func()
+		if watch && mode == "ok" && r.Chance(40) {
+			conc.InstallHooks()
+			cs := conc.NewScenario(ctx)
+			ctx = cs.Ctx
+			release := make(chan struct{})
+			var once, relOnce sync.Once
+			releaseCB = func() { relOnce.Do(func() { close(release) }) }
+			defer releaseCB()
+			cs.Hook = func(name string, _ context.Context, _ []any) {
+				if name == "cb.dequeue" {
+					once.Do(func() {
+						select {
+						case <-release:
+						case <-time.After(5 * time.Second):
+						}
+					})
+				}
+			}
+			w.Count("cases_with_the_callback_goroutine_held_at_its_first_dequeue", 1)
+		}
 		call := func(c *c18Cfg) (*dials.Dials[c18Cfg], error) {
 			if byExt {
 				return ez.FileExtensionDecoderConfigEnvFlag(ctx, c, params)
@@ -607,6 +640,9 @@ func runC18(w *fw.Worker) {
 				return
 			}
 			w.Count("watched_rewrites_converged", 1)
+			if releaseCB != nil {
+				releaseCB()
+			}
 			scn.mu.Lock()
 			calls := append([]c18Verify(nil), scn.verifyCalls[before:]...)
 			scn.mu.Unlock()
@@ -619,6 +655,15 @@ func runC18(w *fw.Worker) {
 			if !conc.WaitUntil(func() bool { scn.mu.Lock(); defer scn.mu.Unlock(); return scn.newCfg > 0 }, 5*time.Second) {
 				w.Violation(i, "onnewconfig-not-delivered-after-watched-change", "the file change was installed but OnNewConfig never fired", desc)
 				return
+			}
+			scn.mu.Lock()
+			olds := append([]string(nil), scn.newCfgOldMarkers...)
+			scn.mu.Unlock()
+			for _, m := range olds {
+				if m == "" {
+					w.Violation(i, "global-callback-exposed-the-file-less-intermediate-config", fmt.Sprintf("an OnNewConfig call had the config without the file layer as its old config (old markers of all calls: %q)", olds), desc)
+					return
+				}
 			}
 		}
 		if watch && mode == "ok" && r.Chance(8) {
